@@ -137,6 +137,7 @@ func New(ctx context.Context, params ...Parameter) (*Service, error) {
 		slotsPerEpoch:                 slotsPerEpoch,
 		epochsPerSyncCommitteePeriod:  epochsPerSyncCommitteePeriod,
 		chainTimeService:              parameters.chainTimeService,
+		waitedForGenesis:              parameters.waitedForGenesis,
 		proposerDutiesProvider:        parameters.proposerDutiesProvider,
 		attesterDutiesProvider:        parameters.attesterDutiesProvider,
 		syncCommitteeDutiesProvider:   parameters.syncCommitteeDutiesProvider,
